@@ -1,6 +1,7 @@
 package rules
 
 import (
+	"fmt"
 	"strings"
 
 	"golang.org/x/tools/go/ssa"
@@ -16,12 +17,14 @@ func init() {
 		Explain: "Decides the two structural conditions any rollback of a nested call needs. (S1) the context snapshot taken before the nested call (vmContext.copyToNewContext) does not share the storageUpdate " +
 			"map with the live context: SetStorageForAddress mutates that map in place, so a snapshot holding the same map records nothing to return to. (S2) on the branch of ExecuteOnDestContext where the " +
 			"nested contract did not return Ok, the live context's storageUpdate is restored (a store to the field, or a call that performs one) before the function returns. " +
+			"(S3) while storage is not rolled back: in every entry point of stakingSC no storage write is followed, within one pass, by a return of a failure code other than the failure of the write itself (one reviewed site). " +
 			"Not decided (value-level): what exactly is restored, output-account merging, gas.",
 		Run: runC40,
 	})
 }
 
 func runC40(c *core.Ctx) {
+	c40StakingValidatesBeforeItWrites(c)
 	const pkg = "vm/systemSmartContracts"
 	if fn := anchorM(c, pkg, "vmContext", "copyToNewContext"); fn != nil {
 		n := 0
@@ -104,4 +107,106 @@ func isOkConst(b *ssa.BinOp, rc ssa.Value) bool {
 		}
 	}
 	return false
+}
+
+// c40StakingValidatesBeforeItWrites: ExecuteOnDestContext does not take storage back when a nested
+// call fails (the open findings above), and the validator contract carries on after a refused
+// nested call in its per-key loops. Until that is repaired, "a refused nested call leaves nothing
+// behind" rests on the staking contract refusing BEFORE it writes: in every entry point of
+// stakingSC, within one pass (paths through a loop's back edge are the batch case and are left
+// out), no storage write is followed by a return of a failure code - other than the failure of the
+// write itself. One site is reviewed: see c40ReviewedWriteThenRefuse.
+var c40ReviewedWriteThenRefuse = map[string]string{
+	"stakingSC.unStake/moveFirstFromWaitingToStaked": "present on the unchanged tree: the refusal `too many left` (StakedNodes - JailedNodes - MinNumNodes <= 0) can follow an effective promotion only when, with a non-empty waiting queue, the jailed nodes had already used up the whole spare capacity plus one; with an empty queue the promotion writes nothing. No history of public operations reaching that state was constructed, so the site is listed as reviewed, not claimed as a finding - any OTHER write-then-refuse in stakingSC is reported",
+}
+
+func c40StakingValidatesBeforeItWrites(c *core.Ctx) {
+	const pkg = "vm/systemSmartContracts"
+	funcs := c.P.FuncsOfPkg(pkg)
+	if len(funcs) == 0 {
+		return
+	}
+	wb := core.NewWriteBack(funcs[0].Pkg, funcs)
+	wb.Run()
+	writes := func(in ssa.Instruction) (string, bool) {
+		cc := core.CallOf(in)
+		if cc == nil {
+			return "", false
+		}
+		if cc.IsInvoke() {
+			n := cc.Method.Name()
+			return n, n == "SetStorage" || n == "SetStorageForAddress" || n == "Transfer"
+		}
+		g := cc.StaticCallee()
+		if g == nil || g.Pkg != funcs[0].Pkg || len(g.Blocks) == 0 {
+			return "", false
+		}
+		return g.Name(), !wb.ReadOnly(g)
+	}
+	backEdge := func(b *ssa.BasicBlock, si int) bool { return b.Succs[si].Dominates(b) }
+	n, seen := 0, map[string]bool{}
+	for _, fn := range funcs {
+		if fn.Signature.Recv() == nil || !strings.HasSuffix(fn.Signature.Recv().Type().String(), ".stakingSC") {
+			continue
+		}
+		if fn.Signature.Results().Len() != 1 || !strings.HasSuffix(fn.Signature.Results().At(0).Type().String(), "ReturnCode") {
+			continue
+		}
+		c.Analysed(fname(fn))
+		core.Instrs(fn, func(in ssa.Instruction) {
+			name, isW := writes(in)
+			if !isW {
+				return
+			}
+			refused := func(x ssa.Instruction, _ *ssa.BasicBlock) bool {
+				r, ok := x.(*ssa.Return)
+				if !ok {
+					return false
+				}
+				k, isC := core.ConstInt(r.Results[0])
+				if !isC || k == 0 {
+					return false
+				}
+				// the failure of a writing call itself is not a validation after the write
+				if conds := core.CondsAt(r.Block()); len(conds) > 0 {
+					if bo, isBo := conds[0].V.(*ssa.BinOp); isBo {
+						for _, side := range []ssa.Value{bo.X, bo.Y} {
+							v := side
+							if ex, isEx := v.(*ssa.Extract); isEx {
+								v = ex.Tuple
+							}
+							if call, isCall := v.(*ssa.Call); isCall {
+								if _, w := writes(call); w {
+									return false
+								}
+							}
+						}
+					}
+				}
+				return true
+			}
+			esc, path := core.PathQ{Fn: fn, From: in, Prune: backEdge, Target: refused}.Escape()
+			n++
+			key := fname(fn) + "/" + name
+			if seen[key] {
+				key = fmt.Sprintf("%s#%d", key, n)
+			}
+			seen[key] = true
+			if why, reviewed := c40ReviewedWriteThenRefuse[key]; reviewed && esc != nil {
+				c.Pass("C40/staking-validates-before-it-writes", key, in.Pos(), "reviewed: "+why)
+				return
+			}
+			c.Check(esc == nil, "C40/staking-validates-before-it-writes", key, in.Pos(),
+				"no refusal can follow this write within the same pass",
+				fmt.Sprintf("%s writes storage through %s and can still refuse afterwards (%s, refusal at %s): the nested call fails, ExecuteOnDestContext keeps the write, and the validator contract - which carries on after a refused key - commits it", fname(fn), name, c.P.PathString(path), posOf(c, esc)))
+		})
+	}
+	c.Floor("C40/staking-validates-before-it-writes", 20)
+}
+
+func posOf(c *core.Ctx, in ssa.Instruction) string {
+	if in == nil {
+		return "-"
+	}
+	return c.P.Pos(in.Pos())
 }
